@@ -410,7 +410,7 @@ class QueueTap(E1Prop):
                'deliver_all': 3, 'api': 0.6, 'commit': 0.2, 'comment': 0}
     GEN_KW = {'only_new': True, 'max_prs': 4, 'ci_green_bias': 0.65,
               'ci_states': ('SUCCESSFUL', 'FAILED', 'INPROGRESS',
-                            'NOTSTARTED'),
+                            'NOTSTARTED', 'STOPPED'),
               'api_jobs': ['force_merge', 'eval_pr']}
     NOPS = (12, 28)
 
